@@ -43,6 +43,10 @@ type Net struct {
 	lns         map[string]*Listener
 	ips         map[string]net.IP
 	Plan        map[string]DialPlan
+	// FastPath: connections handed to the code under test (Dial, Accept) also implement io.ReaderFrom and
+	// io.WriterTo, as *net.TCPConn does: code that type-asserts them takes the branch it takes on a real socket.
+	// Off by default: the buffered copy paths are then the ones that run (both worlds are explored where it matters).
+	FastPath bool
 	DialTimeout time.Duration
 	SlowDial    time.Duration // delay of a Slow dial (default 2 s)
 	dials       []DialEvent
@@ -142,6 +146,9 @@ func (n *Net) Dial(ctx context.Context, network, addr string) (net.Conn, error) 
 	c, err := n.DialConn(ctx, network, addr, "")
 	if err != nil {
 		return nil, err
+	}
+	if n.FastPath {
+		return TCPLike{c}, nil
 	}
 	return c, nil
 }
@@ -285,6 +292,9 @@ func (l *Listener) Accept() (net.Conn, error) {
 	}
 	c := l.q[0]
 	l.q = l.q[1:]
+	if l.n.FastPath {
+		return TCPLike{c}, nil
+	}
 	return c, nil
 }
 
@@ -487,10 +497,17 @@ func (c *Conn) Close() error {
 	return nil
 }
 
-// ReadFrom and WriteTo exist because *net.TCPConn has them (sendfile / splice fast paths): code that type-asserts
+// TCPLike is what the code under test gets from Dial / Accept when Net.FastPath is set: the connection plus the
+// ReadFrom / WriteTo methods of *net.TCPConn.
+type TCPLike struct{ *Conn }
+
+func (t TCPLike) ReadFrom(r io.Reader) (int64, error) { return t.Conn.readFrom(r) }
+func (t TCPLike) WriteTo(w io.Writer) (int64, error)  { return t.Conn.writeTo(w) }
+
+// readFrom and writeTo exist because *net.TCPConn has ReadFrom and WriteTo (sendfile / splice fast paths): code that type-asserts
 // io.ReaderFrom / io.WriterTo on the raw connection takes the same branch here as on a real socket. They move the
 // same bytes as a Write / Read loop would, and are counted so that a layer that must see every byte can be checked.
-func (c *Conn) ReadFrom(r io.Reader) (int64, error) {
+func (c *Conn) readFrom(r io.Reader) (int64, error) {
 	c.mu.Lock()
 	c.readFromCalls++
 	c.mu.Unlock()
@@ -514,7 +531,7 @@ func (c *Conn) ReadFrom(r io.Reader) (int64, error) {
 	}
 }
 
-func (c *Conn) WriteTo(w io.Writer) (int64, error) {
+func (c *Conn) writeTo(w io.Writer) (int64, error) {
 	buf := make([]byte, 32<<10)
 	var total int64
 	for {
